@@ -120,11 +120,11 @@ def parse_wlog(path):
     return segs
 
 
-def build(ctx):
+def build(ctx, kind="DD"):
     rng = ctx.rng
     flav = rng.choice(gen.FLAVOURS)
     h = gen.Hist(rng, flav, big=rng.random() < 0.4, max_handles=4)
-    L = gen.dev_create("DD", flav) + ["mountdev 0", "mount 0 0"]
+    L = gen.dev_create(kind, flav) + ["mountdev 0", "mount 0 0"]
     # some initial content, closed
     for i in range(3):
         nm = b"init%d" % i
@@ -238,8 +238,12 @@ def run(ctx):
     nh = 10 if ctx.tier == "quick" else 300
     nr = 20 if ctx.tier == "quick" else 400
     nc = 20 if ctx.tier == "quick" else 400
-    for hi in range(nh + nr + nc):
-        L, ops, flav = build(ctx) if hi < nh else (build_reuse(ctx, hi - nh) if hi < nh + nr else build_cache(ctx))
+    nm = 6 if ctx.tier == "quick" else 100      # volumes with three bitmap pages: most updates dirty one page, not the last
+    for hi in range(nh + nr + nc + nm):
+        if hi >= nh + nr + nc:
+            L, ops, flav = build(ctx, kind="HF:12200")
+        else:
+            L, ops, flav = build(ctx) if hi < nh else (build_reuse(ctx, hi - nh) if hi < nh + nr else build_cache(ctx))
         rc, out, err, wd = common.run_script(ctx, "\n".join(L) + "\n", timeout=300)
         ctx.count(("hist", hi, hash(tuple(L))))
         ctx.bump("history")
